@@ -157,6 +157,12 @@ Definition attr_index (num_attr fg idx : Z) : Z :=
 
 Definition int16_ok (z : Z) : bool := (-32768 <=? z) && (z <=? 32767).
 
+(* the attributes a PAINT statement uses: omitted colour = foreground, omitted border = the colour index *)
+Definition fill_index (c : option Z) : Z := match c with Some cv => cv | None => -1 end.
+Definition border_index (c b : option Z) : Z := match b with Some bv => bv | None => fill_index c end.
+Definition fill_of (num_attr fg : Z) (c : option Z) : Z := attr_index num_attr fg (fill_index c).
+Definition border_of (num_attr fg : Z) (c b : option Z) : Z := attr_index num_attr fg (border_index c b).
+
 Definition paint (text_mode : bool) (num_attr fg : Z) (v : bounds) (m : bitmap)
            (x y : Z) (c b : option Z) : res bitmap :=
   if text_mode then Err 5 else
